@@ -48,6 +48,8 @@ let rec parse_cnode (toks : string list) : node * string list =
        | [] -> failwith "SS") in
     let (alts, r) = go (ios k) t in (NStringSet (alts, bos ic), r)
   | "Alt" :: t -> let (a, r) = parse_cnode t in let (b, r2) = parse_cnode r in (NAlt (a, b), r2)
+  | "LA" :: ng :: bw :: sg :: eg :: t ->
+    let (c, r) = parse_cnode t in (NLookaround (bos ng, bos bw, nat_of_int (ios sg), nat_of_int (ios eg), c), r)
   | "Cat" :: k :: t ->
     let rec go k t = if k = 0 then ([], t) else let (x, r) = parse_cnode t in let (xs, r2) = go (k - 1) r in (x :: xs, r2) in
     let (l, r) = go (ios k) t in (NCat l, r)
@@ -127,7 +129,11 @@ let run () =
          (* a factor that is an alternation is a non-capturing group (the generator never puts one alone in a term) *)
          let rec group_node r : node option =
            (let ts = List.map term (alts r) in
-            let fs = List.map (fun t -> List.map (fun x -> match x with RAlt (_, _) -> group_node x | y -> atom_node y) t) ts in
+            let fs = List.map (fun t -> List.map (fun x -> match x with
+                | RAlt (_, _) -> group_node x
+                (* a lookahead over terms of the fragment (no capture groups: start_group = end_group = 0) *)
+                | RLook (true, ng, b) -> (match group_node b with Some m -> Some (NLookaround (ng, false, nat_of_int 0, nat_of_int 0, m)) | None -> None)
+                | y -> atom_node y) t) ts in
             if List.for_all (List.for_all (fun o -> o <> None)) fs then begin
               let ns = List.map (fun t -> make_cat (List.map (fun o -> match o with Some m -> m | None -> NEmpty) t)) fs in
               Some (make_alt (nat_of_int (List.length ns + 1)) ns) end
